@@ -12,6 +12,7 @@ n = Int("n")
 class ScalarShape(NdContract):
     """for every number of rows n >= 1 the result is a 0-d value; n == 0 raises ValueError (selection_rate)."""
     source = BM
+    check_pointwise_division = False      # the weight total is positive by the property's precondition (positive weights, n >= 1)
 
     def __init__(self, fname, weighted, column_vector=False):
         self.function, self.weighted, self.col = fname, weighted, column_vector
